@@ -6,11 +6,24 @@ import re, sys, os
 LEAN = os.path.join(os.path.dirname(os.path.dirname(os.path.abspath(__file__))), "lean")
 
 def blocks(path):
+    """theorem name -> (doc comment, signature text between the name and the `:=` that starts the proof)"""
     src = open(path).read()
     out = {}
-    for m in re.finditer(r"((?:/--(?:.|\n)*?-/\n)?)theorem (\S+)((?:.|\n)*?):= by\n", src):
-        doc, name, sig = m.group(1), m.group(2), m.group(3)
-        out[name] = (doc, sig)
+    for m in re.finditer(r"((?:/--(?:(?!-/)(?:.|\n))*-/\n)?)theorem (\S+)", src):
+        doc, name = m.group(1), m.group(2)
+        i = m.end(); depth = 0; line_start = src.rfind("\n", 0, i) + 1
+        while i < len(src):
+            ch = src[i]
+            if ch == "\n":
+                line_start = i + 1
+            elif ch in "({[⟨":
+                depth += 1
+            elif ch in ")}]⟩":
+                depth -= 1
+            elif src.startswith(":=", i) and depth == 0 and not src[line_start:i].lstrip().startswith("let "):
+                break
+            i += 1
+        out[name] = (doc, src[m.end():i])
     return out
 
 def split_sig(sig):
@@ -37,17 +50,17 @@ def args_of(binders):
         args += names
     return args
 
-def gen(prop, title, intro, items, outpath, imports):
-    L = ["import Ebu.Spec.Bus"] + ["import " + i for i in imports] + ["/-!", "%s — %s" % (prop, title), "", intro, "-/", "namespace Ebu.Props.%s" % prop, "open Ebu.Bus", ""]
+def gen(prop, title, intro, items, outpath, imports, ns="Ebu.Bus", opens="Ebu.Bus"):
+    L = ["import " + i for i in imports] + ["/-!", "%s — %s" % (prop, title), "", intro, "-/", "namespace Ebu.Props.%s" % prop, "open " + opens, ""]
     for (path, name, newname) in items:
         doc, sig = blocks(os.path.join(LEAN, path))[name]
         binders, pre, stmt = split_sig(sig)
-        L.append(doc + "theorem %s%s:%s:=\n  Ebu.Bus.%s %s\n" % (newname, pre, stmt.rstrip() + " ", name, " ".join(args_of(binders))))
+        L.append(doc + "theorem %s%s:%s:=\n  %s.%s %s\n" % (newname, pre, stmt.rstrip() + " ", ns, name, " ".join(args_of(binders))))
     L.append("end Ebu.Props.%s" % prop)
     open(outpath, "w").write("\n".join(L) + "\n")
 
 R, F, P, O = "Ebu/Proofs/BusRefine.lean", "Ebu/Proofs/BusFrame.lean", "Ebu/Proofs/BusPersist.lean", "Ebu/Proofs/BusObs.lean"
-IMP = ["Ebu.Proofs.BusRefine", "Ebu.Proofs.BusFrame", "Ebu.Proofs.BusPersist", "Ebu.Proofs.BusObs"]
+IMP = ["Ebu.Spec.Bus", "Ebu.Proofs.BusRefine", "Ebu.Proofs.BusFrame", "Ebu.Proofs.BusPersist", "Ebu.Proofs.BusObs"]
 SPECS = {
  "C01": ("Publish reaches exactly the subscribed handlers, once each, in order",
    "Model: M1 (`Ebu/Model/Bus.lean`). The theorems hold for every program, including handlers that subscribe, unsubscribe, clear, publish, cancel and panic re-entrantly, every fuel, and every routing function `shardOf`.",
@@ -66,6 +79,26 @@ SPECS = {
  "C20": ("Observability callbacks are balanced, nested and truthful", "",
    [(O,"obs_balanced_exec","obs_balanced_call"),(O,"obs_balanced_run","obs_balanced_run"),(O,"obs_ids_fresh","span_ids_fresh"),(O,"callHandler_obs","handler_callbacks"),(O,"persist_obs","persist_callbacks"),(O,"publish_obs","publish_callbacks"),(O,"no_obs_no_events","no_observability_no_callbacks")]),
 }
+ONLY = sys.argv[1:]
 for prop, (title, intro, items) in SPECS.items():
-    gen(prop, title, intro, items, os.path.join(LEAN, "Ebu", "Props", prop + ".lean"), IMP)
-print("generated", list(SPECS))
+    if ONLY and prop not in ONLY: continue
+    imps = ["Ebu.Spec.Bus"] + sorted({pth[:-5].replace("/", ".") for (pth, _, _) in items})
+    gen(prop, title, intro, items, os.path.join(LEAN, "Ebu", "Props", prop + ".lean"), imps)
+G = "Ebu/Proofs/Log.lean"
+LOGSPECS = {
+ "C10": ("Every bundled store behaves as one append-only, resumable log",
+   "Models: M3 (`Ebu/Model/Log.lean`). `PagedSpec` is the contract of `EventStore.Read`; the memory and SQLite stores are proved to satisfy it (SQLite with offsets compared as numbers), and every store that satisfies it is proved to reproduce the log under any chain of reads. Known findings (see /verif/known_findings.json): SQLite offsets are not lexicographically ordered; the durable-streams store does not satisfy the contract when `limit` truncates a chunk — witness theorems below, plus the `_partial` statements that do hold.",
+   [(G,"lexLt_fmt20","memory_offsets_lexicographic"),(G,"maxInt64_lt","int64_fits_20_digits"),(G,"mem_log","memory_log"),(G,"mem_paged","memory_satisfies_contract"),(G,"mem_stream_eq_read","memory_stream_eq_read"),(G,"mem_offsets_table","memory_offsets_table"),
+    (G,"sqlParse_decimal","sqlite_offset_roundtrip"),(G,"sql_log","sqlite_log"),(G,"sql_paged","sqlite_satisfies_contract_numeric"),(G,"sql_garbage_rejected","sqlite_garbage_rejected"),(G,"sql_offsets_table","sqlite_offsets_table"),(G,"sqlite_offsets_not_lex","sqlite_offsets_not_lex"),
+    (G,"chain_reads_reproduce_log","chain_reads_reproduce_log"),(G,"resume_from_event_offset","resume_from_event_offset"),
+    (G,"lexLt_fmt10","ds_offsets_lexicographic"),(G,"ds_limit_loses_events","ds_limit_loses_events"),(G,"ds_event_offset_not_resumable","ds_event_offset_not_resumable"),(G,"ds_read_untruncated_partial","ds_read_untruncated_partial")]),
+ "C11": ("Replay delivers every event after the offset, or says that it did not",
+   "Models: M4 (`Ebu/Model/Replay.lean`) over M3. Fault script: the callback fails at call k, the context is cancelled during call k, the j-th Read fails.",
+   [(G,"replayStream_complete","stream_complete"),(G,"replayStream_prefix","stream_prefix_on_fault"),(G,"replaySqlBatched_complete","sqlite_batched_complete"),(G,"replaySqlBatched_prefix","sqlite_batched_prefix_on_fault"),
+    (G,"replayPaged_complete","paged_complete"),(G,"replayPaged_prefix","paged_prefix_on_fault"),(G,"mem_paged","memory_satisfies_contract"),(G,"sql_paged","sqlite_satisfies_contract"),
+    (G,"ds_replay_loses_events","ds_replay_loses_events"),(G,"ds_replay_untruncated_partial","ds_replay_untruncated_partial")]),
+}
+for prop, (title, intro, items) in LOGSPECS.items():
+    if ONLY and prop not in ONLY: continue
+    gen(prop, title, intro, items, os.path.join(LEAN, "Ebu", "Props", prop + ".lean"), ["Ebu.Spec.Log", "Ebu.Proofs.Log"], ns="Ebu.Log", opens="Ebu.Log Ebu.Replay")
+print("generated", list(SPECS) + list(LOGSPECS))
